@@ -728,3 +728,56 @@ T('c16i_reader_function_in_sibling_module', ['C16'],
   (_CORE, _CORE_CLASS, "def cookie_stats(name, cookie):\n    stats = {}\n    stats[name] = len(cookie)\n    return stats\n\n\n" + _CORE_CLASS),
   (CK, '\nfrom .core import Middleware\n', '\nfrom .core import Middleware, cookie_stats\n'),
   (CK, _NEXT, "        stats = cookie_stats(self.cookie_name, cookie)\n" + _NEXT))
+
+# ---------------------------------------------------------------- R16.d: set_expires over the kinds of argument (None / 0 / a number / the marker)
+_WITHDRAW = "            self.pop('_expires', None)\n            return\n"
+T('c16i_set_expires_none_withdraws', ['C16'], (CK, _SETEXP, "        if epoch_time is None:\n" + _WITHDRAW + _SETEXP))
+T('c16i_set_expires_none_withdraws_early_guard', ['C16'],
+  (CK, _SETEXP_NOW + _SETEXP, "        if epoch_time is None or epoch_time == '':\n            del self['_expires']\n            return\n"
+                              "        self['_expires'] = 123456 if epoch_time == NOW else epoch_time\n"))
+T('c16i_set_expires_type_guard', ['C16'],
+  (CK, _SETEXP, "        if not isinstance(epoch_time, (int, float)):\n            raise TypeError('epoch_time: a number or NOW')\n" + _SETEXP))
+B('c16i_set_expires_falsy_withdraws', ['C16'], 'R16.d', (CK, _SETEXP, "        if not epoch_time:\n" + _WITHDRAW + _SETEXP))
+B('c16i_set_expires_stores_only_truthy', ['C16'], 'R16.d', (CK, _SETEXP, "        if epoch_time:\n    " + _SETEXP))
+B('c16i_set_expires_or_none', ['C16'], 'R16.d',
+  (CK, _SETEXP, "        epoch_time = epoch_time or None\n        if epoch_time is None:\n" + _WITHDRAW + _SETEXP))
+B('c16i_set_expires_nonpositive_ignored', ['C16'], 'R16.d',
+  (CK, _SETEXP, "        if epoch_time is None or epoch_time <= 0:\n            return\n" + _SETEXP))
+B('c16i_set_expires_stored_then_dropped', ['C16'], 'R16.d',
+  (CK, _SETEXP, _SETEXP + "        if not self['_expires']:\n            del self['_expires']\n"))
+# the same slip on the middleware's side: an entry of 0 is an entry
+B('c16i_stamp_when_entry_falsy', ['C16'], 'R16.d',
+  (CK, _STAMP, "        if self.expiry != NEVER and self.expiry != SESSION and not cookie.get('_expires'):\n"
+               "            cookie['_expires'] = time.time() + self.expiry\n"))
+
+# ---------------------------------------------------------------- R16.g: the kind of time value the dependency is handed as the expiry
+_DTIMPORT = (CK, 'import base64\n', 'import base64\nfrom datetime import datetime, timezone\n')
+_SETEXP_TAIL = "        self['_expires'] = epoch_time\n"
+
+
+def _accessor(ret, uses_none_test=True):
+    """get_expires() on the cookie class, used by request() instead of reaching into the dict."""
+    return ((CK, _SETEXP_TAIL, _SETEXP_TAIL + "\n    def get_expires(self):\n        epoch_time = self.get('_expires')\n        if epoch_time is None:\n"
+                               "            return None\n        return " + ret + "\n"),
+            (CK, _SAVE, "        expires = cookie.get_expires()\n        if expires is not None:\n            save_cookie_kwargs['expires'] = expires\n"
+                        "        cookie.save_cookie(response, **save_cookie_kwargs)\n"))
+
+
+T('c16i_expiry_accessor_epoch', ['C16'], *_accessor('epoch_time'))
+T('c16i_expiry_accessor_naive_utc', ['C16'], _DTIMPORT, *_accessor('datetime.utcfromtimestamp(epoch_time)'))
+T('c16i_expiry_accessor_aware', ['C16'], _DTIMPORT, *_accessor('datetime.fromtimestamp(epoch_time, tz=timezone.utc)'))
+T('c16i_expiry_accessor_local_made_aware', ['C16'], _DTIMPORT, *_accessor('datetime.fromtimestamp(epoch_time).astimezone()'))
+T('c16i_expiry_inline_aware', ['C16'],
+  (CK, 'import base64\n', 'import base64\nimport datetime as _dt\n'),
+  (CK, _EXP_LINE, "            save_cookie_kwargs['expires'] = _dt.datetime.fromtimestamp(cookie['_expires'], _dt.timezone.utc)\n"))
+B('c16i_expiry_accessor_mislabelled_utc', ['C16'], 'R16.g', _DTIMPORT, *_accessor('datetime.fromtimestamp(epoch_time).replace(tzinfo=timezone.utc)'))
+B('c16i_expiry_accessor_utc_read_as_local', ['C16'], 'R16.g', _DTIMPORT, *_accessor('datetime.utcfromtimestamp(epoch_time).astimezone(timezone.utc)'))
+B('c16i_expiry_inline_naive_local', ['C16'], 'R16.g',
+  (CK, 'import base64\n', 'import base64\nimport datetime as _dt\n'),
+  (CK, _EXP_LINE, "            save_cookie_kwargs['expires'] = _dt.datetime.fromtimestamp(cookie['_expires'])\n"))
+B('c16i_expiry_keyword_naive_local_named', ['C16'], 'R16.g', _DTIMPORT,
+  (CK, _SAVE, "        until = cookie.get('_expires')\n        when = datetime.fromtimestamp(until, None) if until is not None else None\n"
+              "        cookie.save_cookie(response, session_expires=when, **save_cookie_kwargs)\n"))
+B('c16i_expiry_accessor_not_the_entry', ['C16'], 'R16.g', _DTIMPORT,
+  (CK, _SETEXP_TAIL, _SETEXP_TAIL + "\n    def get_expires(self):\n        return datetime.now(timezone.utc)\n"),
+  (CK, _SAVE, "        save_cookie_kwargs['expires'] = cookie.get_expires()\n        cookie.save_cookie(response, **save_cookie_kwargs)\n"))
